@@ -24,6 +24,10 @@ def configs(tier):
         for w in [(0, 0), (0, 1), (1, 0), (2, 1)]:
             add("sdr-1p-K3-norefresh-w%d.%d" % w, refresh=False, K=3, watch=w, **SDR)
         add("sdr-1p-K3-buffered-norefresh-w0.1", refresh=False, K=3, buffered=True, watch=(0, 1), **SDR)
+        add("sdr-1p-K3-depth1-norefresh-w0.1", refresh=False, K=3, depth=1, watch=(0, 1), **SDR)     # 1-deep look-ahead is a stream.Buffer, not a FIFO
+        add("sdr-1p-K3-depth0-norefresh-w0.0", refresh=False, K=3, depth=0, watch=(0, 0), **SDR)     # no look-ahead at all
+        add("sdr-2p-K2-depth1-norefresh-w0.0", refresh=False, K=2, depth=1, nports=2, watch=(0, 0), rows=(0,), wes=[3, 1], **SDR)
+        add("sdr1:2-1p-K3-norefresh-w0.1", refresh=False, K=3, watch=(0, 1), nphases=2, memtype="SDR", databits=16, colbits=8)   # half-rate SDR PHY (gensdrphy): BL2
         add("sdr-1p-K5-reads-norefresh-w0.0", refresh=False, K=5, rd_only=True, watch=(0, 0), **SDR)
         add("sdr-1p-K2-refresh-W12-w0.0", refresh=True, K=2, window=12, watch=(0, 0), **SDR)
         add("sdr-1p-K2-refresh-W12-w1.1", refresh=True, K=2, window=12, watch=(1, 1), **SDR)
